@@ -500,6 +500,23 @@ pub fn run(ctx: &Ctx) -> i32 {
     col.layer("interaction: JOIN x WHERE x projection x DISTINCT x LIMIT (generic reference executor)", done, complete, json!({"statements": 500, "joined_files": 4}));
     let n = line_ending_layer(&col);
     col.layer("line endings of the joined / main file", n, true, json!({"renderings": ["LF/LF", "CRLF/LF", "LF/CRLF", "CRLF/CRLF", "no final terminator", "CRLF + joined final terminator only"]}));
+    {
+        let sizes: Vec<usize> = if ctx.tier == Tier::Thorough { (1..=300).collect() } else { vec![4, 8, 15, 16, 17, 20, 21, 32, 33, 50, 64, 100, 129, 257] };
+        let mut nl = 0u64;
+        for n in &sizes {
+            for mult in [1usize, 3, 5, 7] {
+                for int_keys in [false, true] {
+                    nl += 1;
+                    col.eval(2);
+                    col.nontrivial(h64(&("large", n, mult, int_keys)));
+                    for f in large_joined_case(int_keys, *n, mult) {
+                        col.fail(f);
+                    }
+                }
+            }
+        }
+        col.layer("larger joined files (partner order)", nl, true, json!({"sizes": if sizes.len() > 20 { json!("1..=300") } else { json!(sizes) }, "key_cycle_steps": [1, 3, 5, 7]}));
+    }
     finish(
         ctx,
         &col,
@@ -513,7 +530,70 @@ pub fn run(ctx: &Ctx) -> i32 {
     )
 }
 
+/// larger joined files: n rows over 4 (TEXT or INT) keys in a non-sorted, repeating order; every main row must meet its
+/// partners in joined-file order (SELECT) and string_agg / array_agg must list them in that order
+fn large_joined_case(int_keys: bool, n: usize, mult: usize) -> Vec<Failure> {
+    let kt = if int_keys { "INT" } else { "TEXT" };
+    let tables = sut::make_tables(&defs(kt)).unwrap();
+    let key = |i: usize| if int_keys { format!("{}", 10 + i) } else { format!("\"k{}\"", i) };
+    let joined: String = (0..n).map(|i| format!("{{\"k\":{},\"y\":{}}}\n", key((i * mult + 3) % 4), i)).collect();
+    let tmp = sut::TempFiles::new(&[joined.as_bytes()]);
+    let main: Vec<String> = [2usize, 0, 3, 1, 0].iter().enumerate().map(|(x, k)| format!("{{\"k\":{},\"x\":{},\"m\":\"m\"}}", key(*k), x)).collect();
+    let ml: Vec<&str> = main.iter().map(|s| s.as_str()).collect();
+    let mut out = Vec::new();
+    let text = format!("SELECT t.x, y FROM t INNER JOIN u::'{}' ON t.k = u.k", tmp.paths[0]);
+    let st = sut::parse(&text).unwrap();
+    let mut expected: Vec<Vec<RVal>> = Vec::new();
+    for (x, k) in [2usize, 0, 3, 1, 0].iter().enumerate() {
+        for i in 0..n {
+            if (i * mult + 3) % 4 == *k {
+                expected.push(vec![RVal::Int(x as i64), RVal::Int(i as i64)]);
+            }
+        }
+    }
+    let got = sut::run_batch(&tables, &st, &ml);
+    if !matches!(&got, Outcome::Ok(t) if sut::rows_same(&t.rows, &expected)) {
+        let dev = match &got {
+            Outcome::Ok(t) if t.rows.len() != expected.len() => "row-count",
+            Outcome::Ok(_) => "partner-order",
+            _ => "error",
+        };
+        out.push(fail(
+            format!("join:large-joined-file:{}:{}", dev, kt),
+            format!("joined file of {} rows (keys cycling with step {}): partners are not met in joined-file order", n, mult),
+            json!({"layer": "large", "int_keys": int_keys, "n": n, "mult": mult}),
+            rows_json(&expected[..expected.len().min(12)]),
+            sut::outcome_json(&got, |t| json!(t.to_json()["rows"].as_array().map(|a| a.iter().take(12).cloned().collect::<Vec<_>>()))),
+            n as u64,
+        ));
+    }
+    let text2 = format!("SELECT t.x, ARRAY_AGG(y) FROM t INNER JOIN u::'{}' ON t.k = u.k GROUP BY t.x", tmp.paths[0]);
+    let st2 = sut::parse(&text2).unwrap();
+    let mut exp2: Vec<Vec<RVal>> = Vec::new();
+    for (x, k) in [2usize, 0, 3, 1, 0].iter().enumerate() {
+        let ys: Vec<RVal> = (0..n).filter(|i| (i * mult + 3) % 4 == *k).map(|i| RVal::Int(i as i64)).collect();
+        if !ys.is_empty() {
+            exp2.push(vec![RVal::Int(x as i64), RVal::Array(ys)]);
+        }
+    }
+    let got2 = sut::run_batch(&tables, &st2, &ml);
+    if !matches!(&got2, Outcome::Ok(t) if sut::rows_same(&t.rows, &exp2)) {
+        out.push(fail(
+            format!("join:large-joined-file:array-agg-order:{}", kt),
+            format!("joined file of {} rows: ARRAY_AGG(y) per main row does not list the partners in joined-file order", n),
+            json!({"layer": "large", "int_keys": int_keys, "n": n, "mult": mult}),
+            rows_json(&exp2),
+            sut::outcome_json(&got2, |t| t.to_json()),
+            n as u64 + 1,
+        ));
+    }
+    out
+}
+
 pub fn replay(case: &J) -> Vec<Failure> {
+    if case["layer"].as_str() == Some("large") {
+        return large_joined_case(case["int_keys"].as_bool().unwrap(), case["n"].as_u64().unwrap() as usize, case["mult"].as_u64().unwrap() as usize);
+    }
     if case["layer"].as_str() == Some("line-endings") {
         let col = Collector::new();
         line_ending_layer(&col);
